@@ -725,7 +725,7 @@ func (v *Verifier) havocLoc(st *State, l modLoc, in ssa.Instruction) {
 			return -1
 		})
 		if v.col != nil {
-			st.colW = append(st.colW, wrec{key: "ALLKEY:" + l.key})
+			st.colW = append(st.colW, wrec{key: "INTERNAL:" + l.key})
 		}
 	case "anyelems":
 		v.frameCheckRegion(st, l, in)
@@ -836,7 +836,7 @@ func (v *Verifier) frameViolation(st *State, in ssa.Instruction, why string) {
 	if !v.frameOn || v.col != nil || v.curCon == nil || !v.curCon.HasModifies {
 		return
 	}
-	v.emit(st, "frame", "write@"+posOf(in.Parent(), in.Pos()), []string{"C08", "C19"}, tFalse, why, posOf(in.Parent(), in.Pos()))
+	v.emit(st, "frame", "write@"+posOf(in.Parent(), in.Pos()), []string{"C08", "C19", "C17"}, tFalse, why, posOf(in.Parent(), in.Pos()))
 }
 
 // frameCheckRegion: a callee's region-shaped modifies item must be covered by an item of the same shape
@@ -879,7 +879,7 @@ func (v *Verifier) frameCheckRegion(st *State, l modLoc, in ssa.Instruction) {
 			return
 		}
 	}
-	v.emit(st, "frame", "region:"+l.kind+":"+l.key+"@"+fnKey(originOf(in.Parent())), []string{"C08", "C19"}, tFalse, "callee modifies region "+l.kind+" "+l.key+" which is not in this function's modifies clause", posOf(in.Parent(), in.Pos()))
+	v.emit(st, "frame", "region:"+l.kind+":"+l.key+"@"+fnKey(originOf(in.Parent())), []string{"C08", "C19", "C17"}, tFalse, "callee modifies region "+l.kind+" "+l.key+" which is not in this function's modifies clause", posOf(in.Parent(), in.Pos()))
 }
 
 func (v *Verifier) frameCheck(st *State, addr *Term, t types.Type, in ssa.Instruction) {
@@ -980,7 +980,7 @@ func (v *Verifier) frameCheckLoc(st *State, key string, addr *Term, in ssa.Instr
 	if v.frameGuard != nil {
 		goal = tImp(v.frameGuard, goal)
 	}
-	v.emit(st, "frame", "write:"+key+"@"+fnKey(originOf(in.Parent())), []string{"C08", "C19"}, goal, "store to "+trimModel(addr.String(), 200)+" must be inside modifies", where)
+	v.emit(st, "frame", "write:"+key+"@"+fnKey(originOf(in.Parent())), []string{"C08", "C19", "C17"}, goal, "store to "+trimModel(addr.String(), 200)+" must be inside modifies", where)
 }
 
 // ---- sync.Pool
@@ -1190,11 +1190,18 @@ func (v *Verifier) appendBuiltin(st *State, tg *callTarget, bind ssa.Value, in s
 				v.store(stA, dst, elemT, v.load(stA, src, elemT))
 			}
 		} else {
+			oldArrsA := map[string]*Term{}
 			for _, l := range v.leaves(pElem(slBase(s), intLit(0)), elemT) {
 				h := v.heapFor(stA, l.sort)
-				v.frameCheckLoc(stA, h.Key, pElem(slBase(s), slOff(s)), in)
-				oldArr := h.arrayTerm()
-				v.havocRegion(stA, h, slBase(s))
+				if _, done := oldArrsA[h.Key]; !done {
+					v.frameCheckLoc(stA, h.Key, pElem(slBase(s), slOff(s)), in)
+					oldArrsA[h.Key] = h.arrayTerm()
+					v.havocRegion(stA, h, slBase(s))
+				}
+			}
+			for _, l := range v.leaves(pElem(slBase(s), intLit(0)), elemT) {
+				h := v.heapFor(stA, l.sort)
+				oldArr := oldArrsA[h.Key]
 				// prefix (and everything outside the appended window) unchanged, window copied
 				rel := func(b *Term, idx *Term) *Term { return relocate(l.addr, b, idx) }
 				i := mk("Int", "zz_qi")
@@ -1215,16 +1222,19 @@ func (v *Verifier) appendBuiltin(st *State, tg *callTarget, bind ssa.Value, in s
 		nb := v.alloc()
 		ncap := v.Y.fresh(v.D, "newcap", "Int")
 		stB.assume(tCmp(">=", ncap, newLen))
+		// one havoc of the fresh region per heap (two leaves of one sort share a heap), then the copy facts per leaf
+		oldArrs := map[string]*Term{}
 		for _, l := range v.leaves(pElem(nb, intLit(0)), elemT) {
 			h := v.heapFor(stB, l.sort)
-			oldArr := h.arrayTerm()
-			rel := func(b *Term, idx *Term) *Term { return relocate(l.addr, b, idx) }
-			if nKnown && nlit <= 4 {
-				// copy prefix by quantifier into a fresh region, then explicit element writes
-				v.havocRegion(stB, h, nb)
-			} else {
+			if _, done := oldArrs[h.Key]; !done {
+				oldArrs[h.Key] = h.arrayTerm()
 				v.havocRegion(stB, h, nb)
 			}
+		}
+		for _, l := range v.leaves(pElem(nb, intLit(0)), elemT) {
+			h := v.heapFor(stB, l.sort)
+			oldArr := oldArrs[h.Key]
+			rel := func(b *Term, idx *Term) *Term { return relocate(l.addr, b, idx) }
 			i := mk("Int", "zz_qi")
 			stB.assume(mk("Bool", "forall ((zz_qi Int))", tImp(tAnd(tCmp("<=", intLit(0), i), tCmp("<", i, slLen(s))),
 				tEq(mk(h.ElSort, "select", h.arrayTerm(), rel(nb, i)), mk(h.ElSort, "select", oldArr, rel(slBase(s), tAdd(slOff(s), i)))))))
@@ -1344,21 +1354,22 @@ func (v *Verifier) loopContract(f *Frame, h *ssa.BasicBlock) *LoopContract {
 }
 
 type writeSet struct {
-	globals []modLoc
-	anyelems map[string]bool
-	fields  map[string][]*Term // key -> field ids (any object)
-	exact   map[string][]wrec // key -> addresses
-	regions map[string][]*Term
-	allKeys map[string]bool
-	ghosts  map[string]bool
+	globals   []modLoc
+	anyelems  map[string]bool
+	fields    map[string][]*Term // key -> field ids (any object)
+	exact     map[string][]wrec  // key -> addresses
+	regions   map[string][]*Term
+	allKeys   map[string]bool
+	ghosts    map[string]bool
+	internals map[string]bool // key -> every module-internal field of that heap
 }
 
 func newWriteSet() *writeSet {
-	return &writeSet{anyelems: map[string]bool{}, fields: map[string][]*Term{}, exact: map[string][]wrec{}, regions: map[string][]*Term{}, allKeys: map[string]bool{}, ghosts: map[string]bool{}}
+	return &writeSet{anyelems: map[string]bool{}, fields: map[string][]*Term{}, exact: map[string][]wrec{}, regions: map[string][]*Term{}, allKeys: map[string]bool{}, ghosts: map[string]bool{}, internals: map[string]bool{}}
 }
 
 func (w *writeSet) size() int {
-	n := len(w.allKeys) + len(w.ghosts) + len(w.anyelems) + len(w.globals)
+	n := len(w.allKeys) + len(w.ghosts) + len(w.anyelems) + len(w.globals) + len(w.internals)
 	for _, x := range w.exact {
 		n += len(x)
 	}
@@ -1426,6 +1437,13 @@ func (v *Verifier) applyWriteSet(st *State, w *writeSet) {
 			continue
 		}
 		v.havocLoc(st, modLoc{kind: "anyelems", key: k, sort: h.ElSort}, nil)
+	}
+	for _, k := range sortedKeys(w.internals) {
+		h := st.heap[k]
+		if h == nil || w.allKeys[k] {
+			continue
+		}
+		v.havocLoc(st, modLoc{kind: "anyinternal", key: k, sort: h.ElSort}, nil)
 	}
 	for _, k := range sortedKeys(w.fields) {
 		h := st.heap[k]
@@ -1629,6 +1647,8 @@ func (v *Verifier) loopArrive(st *State, from, h *ssa.BasicBlock) {
 					v.col.allKeys[strings.TrimPrefix(w.key, "ALLKEY:")] = true
 				case strings.HasPrefix(w.key, "GHOST:"):
 					v.col.ghosts[strings.TrimPrefix(w.key, "GHOST:")] = true
+				case strings.HasPrefix(w.key, "INTERNAL:"):
+					v.col.internals[strings.TrimPrefix(w.key, "INTERNAL:")] = true
 				case strings.HasPrefix(w.key, "GLOBAL:"):
 					v.col.globals = append(v.col.globals, modLoc{kind: strings.TrimPrefix(w.key, "GLOBAL:"), base: w.addr})
 				default:
@@ -1681,7 +1701,7 @@ func (v *Verifier) loopArrive(st *State, from, h *ssa.BasicBlock) {
 			v.applyWriteSet(st2, W)
 			v.havocLoopLocals(st2, h, blocks)
 			v.assumeInvariants(st2, lc, h)
-			col := &collector{header: h, blocks: blocks, depth: len(st2.frames), allKeys: map[string]bool{}, ghosts: map[string]bool{}, symMark: mark, newMark: newMark}
+			col := &collector{header: h, blocks: blocks, depth: len(st2.frames), allKeys: map[string]bool{}, ghosts: map[string]bool{}, internals: map[string]bool{}, symMark: mark, newMark: newMark}
 			v.col = col
 			st2.top().loops[h] = &loopCut{header: h, blocks: blocks}
 			v.pathN = 0
@@ -1693,6 +1713,9 @@ func (v *Verifier) loopArrive(st *State, from, h *ssa.BasicBlock) {
 			}
 			for g := range col.ghosts {
 				W.ghosts[g] = true
+			}
+			for k := range col.internals {
+				W.internals[k] = true
 			}
 			for _, g := range col.globals {
 				dup := false
@@ -1752,6 +1775,9 @@ func (v *Verifier) loopArrive(st *State, from, h *ssa.BasicBlock) {
 			}
 			for g := range W.ghosts {
 				st.colW = append(st.colW, wrec{key: "GHOST:" + g})
+			}
+			for k := range W.internals {
+				st.colW = append(st.colW, wrec{key: "INTERNAL:" + k})
 			}
 			for _, g := range W.globals {
 				st.colW = append(st.colW, wrec{key: "GLOBAL:" + g.kind, addr: g.base})
